@@ -6,7 +6,7 @@
    tables (gen/Gen_AuthorityMsgs.v: from the running app's message router; gen/Gen_Authority.v: from
    fx-core's sources) plus generic lemmas about the handler shape and the compare-and-set loop. *)
 From Coq Require Import ZArith List Bool String.
-From FxV Require Import model.M_AuthorityTypes gen.Gen_Authority gen.Gen_AuthorityMsgs model.M_Authority proofs.P_Authority.
+From FxV Require Import model.M_AuthorityTypes gen.Gen_Authority gen.Gen_AuthorityMsgs model.M_Authority proofs.P_Authority model.M_AuthNested proofs.P_AuthNested.
 Import ListNotations.
 Open Scope Z_scope.
 
@@ -158,3 +158,64 @@ Theorem C16_nonvacuous :
   existsb (fun m => negb (am_in_fx m)) gen_authmsgs = true.
 Proof. exact examples. Qed.
 Print Assumptions C16_nonvacuous.
+
+(* ---- nested delivery: a privileged message wrapped in authz MsgExec, any depth (model/M_AuthNested.v: Exec +
+   DispatchActions of the pinned cosmos-sdk x/authz; this is also how a governance proposal carrying a MsgExec — whose
+   grantee is then the gov account — reaches the inner handler) ---- *)
+
+(* under any nesting, with any grants, the body of a privileged handler is never run on a message whose authority its
+   guard refuses: replacing the body on such messages by anything at all changes neither outcome nor state *)
+Theorem C16_nested_body_only_gov :
+  forall (St Msg : Type) authority_of signer_of kind_of_msg vb gov accept body junk n (m : nmsg Msg) (st : St),
+    nh St Msg signer_of vb accept (leaf_handler St Msg authority_of kind_of_msg gov body) n m st =
+    nh St Msg signer_of vb accept
+       (leaf_handler St Msg authority_of kind_of_msg gov
+          (fun x s => if guard_pass (kind_of_msg x) gov (authority_of x) then body x s else junk x s)) n m st.
+Proof. exact nested_body_only_gov. Qed.
+Print Assumptions C16_nested_body_only_gov.
+
+(* a message tree that reaches a leaf whose guard refuses its authority never succeeds, whatever the grantees, the
+   grants and the other (possibly governance-authorised) messages in it ... *)
+Theorem C16_nested_nongov_never_ok :
+  forall (St Msg : Type) authority_of signer_of kind_of_msg vb gov accept body n (m : nmsg Msg) (st : St),
+    bad Msg authority_of kind_of_msg gov n m = true ->
+    fst (nh St Msg signer_of vb accept (leaf_handler St Msg authority_of kind_of_msg gov body) n m st) <> Ok.
+Proof. exact nested_nongov_never_ok. Qed.
+Print Assumptions C16_nested_nongov_never_ok.
+
+(* ... so at transaction / proposal-execution level it applies nothing, not even its governance-authorised siblings *)
+Theorem C16_nested_nongov_tx_unchanged :
+  forall (St Msg : Type) authority_of signer_of kind_of_msg vb gov accept body n (m : nmsg Msg) (st : St),
+    bad Msg authority_of kind_of_msg gov n m = true ->
+    tx St (nmsg Msg) (nh St Msg signer_of vb accept (leaf_handler St Msg authority_of kind_of_msg gov body) n) m st = st.
+Proof. exact nested_nongov_tx_unchanged. Qed.
+Print Assumptions C16_nested_nongov_tx_unchanged.
+
+(* the would-be authority wrapping its own message (signer = grantee: authz asks for no grant): (Err, unchanged)
+   on the handler's own context *)
+Theorem C16_nested_self_signed_unchanged :
+  forall (St Msg : Type) authority_of signer_of kind_of_msg vb gov accept body n x g (st : St),
+    signer_of x = Some g ->
+    guard_pass (kind_of_msg x) gov (authority_of x) = false ->
+    nh St Msg signer_of vb accept (leaf_handler St Msg authority_of kind_of_msg gov body) (S n) (NExec (Some g) [NLeaf x]) st
+    = (Err, st).
+Proof. exact nested_single_self_signed_unchanged. Qed.
+Print Assumptions C16_nested_self_signed_unchanged.
+
+(* a message carrying the governance authority wrapped for another grantee gets no further than the authorization
+   step unless that step (a grant given by the governance account itself) lets it through *)
+Theorem C16_nested_gov_leaf_needs_gov_grant :
+  forall (St Msg : Type) signer_of vb accept leaf n x g gr (st : St) o st1,
+    signer_of x = Some g -> bytes_eqb g gr = false ->
+    accept g gr (NLeaf x) st = (o, st1) -> o <> Ok ->
+    nh St Msg signer_of vb accept leaf (S n) (NExec (Some gr) [NLeaf x]) st = (if vb x then (o, st1) else (Err, st)).
+Proof. exact nested_gov_leaf_needs_gov_grant. Qed.
+Print Assumptions C16_nested_gov_leaf_needs_gov_grant.
+
+Theorem C16_nested_nonvacuous :
+  ex_nh 3 (NExec (Some [1]) [NExec (Some [1]) [NLeaf [1]; NLeaf [1]]]) 0 = (Ok, 2) /\
+  ex_nh 3 (NExec (Some [1]) [NLeaf [1]; NExec (Some [2]) [NLeaf [2]]]) 0 = (Err, 1) /\
+  bad str (fun a => a) (fun _ => CmpNeq) [1] 3 (NExec (Some [1]) [NLeaf [1]; NExec (Some [2]) [NLeaf [2]]]) = true /\
+  ex_nh 3 (NExec (Some [2]) [NLeaf [1]]) 0 = (Err, 0).
+Proof. exact nested_examples. Qed.
+Print Assumptions C16_nested_nonvacuous.
